@@ -29,9 +29,9 @@ FILES = re.compile(r"cascette-formats/src/|cascette-client-storage/src/(index/|k
 
 # discharged by reading, one named site each (key -> reason)
 DISCHARGED = {
-    "C02.R1|cascette_formats::archive::index::{impl#8}::load_chunk|Option::expect":
+    "C02.R1|cascette_formats::archive::index::<ChunkedArchiveIndex>::load_chunk|Option::expect":
         "Option read back right after `self.chunks[chunk_idx] = Some(entries)` on the only path where it was None; cannot be None",
-    "C02.R1|cascette_formats::root::header::{impl#2}::read|panic_fmt":
+    "C02.R1|cascette_formats::root::header::<RootHeader>::read|panic_fmt":
         "unreachable!(\"V1 has no header\") tests the `version` ARGUMENT, not input bytes; the only parser call site (RootFile::parse_from_reader) "
         "is dominated by `detected_version.has_header()`, which is false exactly for V1",
 }
@@ -82,7 +82,7 @@ def r1_no_panic(ctx, ents, cl):
                 asserts[t.get("m", "?").split("(")[0]] += 1
         for c in pr.panic_sites(b):
             n += 1
-            key = "|".join([rule, bid, pr.kind_of(c)])
+            key = ctx._stable("|".join([rule, bid, pr.kind_of(c)]))
             if pr.infallible_try_into(b, c):
                 ctx.ok(rule, [bid, pr.kind_of(c), "infallible"], "constant-width try_into cannot fail", c.loc(), sample={"site": c.loc(), "idiom": "x[a..a+N].try_into()"})
                 continue
@@ -389,7 +389,7 @@ def r2_alloc(ctx, ents, cl):
                 ctx.ok(rule, [bid, what.split(" ")[0], c.bb], "bounded: %s" % g, c.loc(), sample={"sink": what, "at": c.loc(), "source": wide[0].what, "bound": g})
                 continue
             if wide:
-                ctx.bad(rule, [bid, what.split(" (")[0].split(" ->")[0], wide[0].what.split(" (")[0]],
+                ctx.bad(rule, [bid, sink_tag(what), wide[0].what.split(" (")[0]],
                         "%s sizes %s at %s from %s with no upper bound on any path (no min/clamp, no ordering comparison, no pinning check): a few header bytes make "
                         "the parser request gigabytes and abort the process" % (bid, what, c.loc(), "; ".join(sorted({t.what for t in wide}))[:200]), c.loc(),
                         {"sources": [t.what for t in wide]})
@@ -400,11 +400,15 @@ def r2_alloc(ctx, ents, cl):
                 ctx.ok(rule, [bid, what.split(" ")[0], c.bb], "parameter bounded in the callee", c.loc(), nontrivial=False)
                 continue
             cb, cc, cts, p = via_param[0]
-            ctx.bad(rule, [bid, what.split(" (")[0].split(" ->")[0], "param %s <- %s" % (b.local_name(p), cts[0].what.split(" (")[0])],
+            ctx.bad(rule, [bid, sink_tag(what), "param %s <- %s" % (b.local_name(p), cts[0].what.split(" (")[0])],
                     "%s sizes %s at %s from its parameter `%s`, which %s passes as %s without any bound in either function" %
                     (bid, what, c.loc(), b.local_name(p), cb.id.split("::")[-1], cts[0].what), c.loc(), {"caller": cb.id, "call": cc.loc()})
     ctx.floor(rule, n_sinks, 80, "allocation sinks in the parser closure")
     ctx.ok(rule, ["sinks"], "sinks scanned", None, sample={"allocation_sinks_in_closure": n_sinks, "with_wide_input_derived_size": n_tainted})
+
+
+def sink_tag(what):
+    return {"vec![x; n]": "vec-from-elem"}.get(what, what.split(" (")[0].split(" ->")[0].replace(" ", "-"))
 
 
 def param_guard(b, sink, sl, params):
